@@ -161,6 +161,30 @@ fn init_items() -> SutotonList {
 }
 
 /// Sutoton Converter
+/// the text after '~': `{name} = {value}` defines a word; anything else is dropped up to where the reading stopped
+fn read_definition(cur: &mut SourceCursor, items: &mut SutotonList) {
+    cur.next(); // skip '~'
+    cur.skip_space();
+    if cur.peek_n(0) != '{' {
+        return;
+    }
+    let name = cur.get_token_nest('{', '}');
+    cur.skip_space();
+    if cur.eq_char('=') {
+        cur.next();
+    } // skip '='
+    cur.skip_space();
+    if cur.peek_n(0) != '{' {
+        return;
+    }
+    let value = cur.get_token_nest('{', '}');
+    if name.is_empty() { // empty name never matches
+        return;
+    }
+    items.set_item(&name, &value);
+    items.sort_items();
+}
+
 pub fn convert(src: &str) -> String {
     let mut items = init_items();
     let mut res = String::new();
@@ -208,26 +232,12 @@ pub fn convert(src: &str) -> String {
             */
             // add item
             '~' | '‾' => {
-                cur.next(); // skip '~'
-                cur.skip_space();
-                if cur.peek_n(0) != '{' {
-                    continue;
+                let line0 = cur.line;
+                read_definition(&mut cur, &mut items);
+                // the definition is removed from the text, its line breaks stay: later line numbers must not change
+                for _ in line0..cur.line {
+                    res.push('\n');
                 }
-                let name = cur.get_token_nest('{', '}');
-                cur.skip_space();
-                if cur.eq_char('=') {
-                    cur.next();
-                } // skip '='
-                cur.skip_space();
-                if cur.peek_n(0) != '{' {
-                    continue;
-                }
-                let value = cur.get_token_nest('{', '}');
-                if name.is_empty() { // empty name never matches
-                    continue;
-                }
-                items.set_item(&name, &value);
-                items.sort_items();
                 continue;
             }
             _ => {}
